@@ -305,6 +305,12 @@ func BuildCte(query *Query, expr *sqlparser.With) error {
 	if expr == nil {
 		return nil
 	}
+	// the CTEs are registered in a copy of the top-level map, never in the caller's document
+	data := make(Map, len(query.data)+len(expr.CTEs))
+	for key, value := range query.data {
+		data[key] = value
+	}
+	query.data = data
 	for _, cte := range expr.CTEs {
 		copy := *cte
 		query.data[copy.ID.String()] = CteEvaluation(func() (any, error) {
